@@ -483,6 +483,18 @@ class WsgiApplication(HttpBase):
                 # nothing was yielded: the exhausted generator is the result.
                 pass
 
+            except Exception as e:
+                # the body of a generator function starts to run here
+                logger.exception(e)
+                if isinstance(e, Fault):
+                    p_ctx.out_error = e
+                else:
+                    p_ctx.out_error = Fault('Server',
+                                             get_fault_string_from_exception(e))
+                p_ctx.fire_event('method_exception_object')
+                return self.handle_error(p_ctx, others, p_ctx.out_error,
+                                                                 start_response)
+
             else:
                 p_ctx.out_object = ( chain((first_obj,), g), )
 
